@@ -39,6 +39,8 @@ def run(F, chk):
     V1.floor('bodies of the file-transfer plugin', len(bodies), 20)
     V6 = chk.rule('V6', 'every index that picks a transfer while a message is processed derives, on every definition, from the transfers_idx entry for (msg.ecu, msg.lifecycle, serial)')
     check_routing(F, [b for b in bodies if '::tests::' not in b.path], V6)
+    V7 = chk.rule('V7', 'the transfer index announced in tree items (cmdCtx.save.idx) and the keys of the save table are positions in self.transfers: enumerate() directly over self.transfers')
+    check_index_space(F, V7)
     creates = []
     for b in bodies:
         for blk in b.calls():
@@ -445,3 +447,104 @@ def check_routing(F, bodies, V6):
                 V6.violation(('transfer-not-keyed', b.closure_of or b.path), '%s picks a transfer at %s with an index that, on some definition reaching it, does not come from the transfers_idx entry for (msg.ecu, msg.lifecycle, serial): '
                              'packages of one ECU/lifecycle can be appended to the transfer of another one with the same serial' % (b.path, b.loc(blk.term.sp)), where=b.loc(blk.term.sp))
     V6.floor('sites picking a transfer by index while processing a message', n, 2)
+
+
+# ---------------------------------------------------------------------------------------------
+# V7: one index space for the save table and the announced save context
+
+TRANSFERS_ITER = re.compile(r'::(iter|iter_mut|into_iter|deref|deref_mut|as_slice|as_mut_slice)$')
+
+
+def over_transfers(e):
+    """is `e` an iterator directly over self.transfers (no sort / filter / collect / rev / skip in between)"""
+    for _ in range(12):
+        if not isinstance(e, tuple):
+            return False
+        if e[0] in ('ref', 'cast'):
+            e = e[1]
+        elif e[0] == 'proj' and all(p_ == '*' for p_ in e[2:]):
+            e = e[1]
+        elif e[0] == 'call' and TRANSFERS_ITER.search(e[1]) and len(e[2]) == 1:
+            e = e[2][0]
+        elif e[0] == 'place':
+            return e[1] == 'self' and e[-1] == '.transfers'
+        else:
+            return False
+    return False
+
+
+def check_index_space(F, V7):
+    """`save` looks the bytes up by the index the client sends back from cmdCtx.save.idx; the table is keyed by the position of
+    the transfer in self.transfers.  Both must be the same index space: in update_state (the only place that fills the
+    table and renders the tree items)
+      (a) every enumerate() whose items carry a FileTransfer is applied directly to an iterator over self.transfers
+          (enumerating a sorted / filtered / collected sequence numbers something else), and
+      (b) the index handed to the item renderer (closure (usize, &FileTransfer) -> Value) is, at every call, the index
+          component of such an enumeration."""
+    b = F.get(MOD + 'FileTransferPlugin::update_state')
+    if b is None:
+        V7.violation(('anchor-lost', 'update_state'), 'FileTransferPlugin::update_state not found')
+        return
+    bodies = [b] + list(F.closures_of(b.path))
+    for x in bodies:
+        V7.fn(x.path)
+    n_enum = 0
+    good_enum_blocks = {}
+    for x in bodies:
+        cfg = CFG(x)
+        E = ExprBuilder(cfg, fold_named=True)
+        for blk in x.calls():
+            t = blk.term
+            if t.callee.path.endswith('Iterator::enumerate') and 'FileTransfer' in (t.dest.t or ''):
+                n_enum += 1
+                V7.sites += 1
+                src = E.operand(t.args[0])
+                if over_transfers(src):
+                    V7.ok(sample={'enumerate_at': x.loc(t.sp), 'over': 'self.transfers', 'items': t.dest.t[:80]})
+                    good_enum_blocks[(x.path, blk.i)] = True
+                else:
+                    V7.violation(('index-space', x.closure_of or x.path, 'enumerate'), 'update_state numbers transfers by enumerate() over %s at %s, which is not self.transfers itself: the numbers are not positions in self.transfers, '
+                                 'so a `save` with that idx writes the bytes of another transfer (or fails)' % (show(src)[:90], x.loc(t.sp)), where=x.loc(t.sp))
+    V7.floor('enumerate() sites over transfers in update_state', n_enum, 2)
+    # (b) the renderer and its call sites
+    renderers = [c for c in F.closures_of(b.path) if c.arg_count == 3 and c.arg_types()[1] == 'usize' and 'FileTransfer' in c.arg_types()[2] and 'serde_json::Value' in c.ret_type()]
+    V7.floor('tree item renderer closures (usize, &FileTransfer) -> Value', len(renderers), 1)
+    n_calls = 0
+    for r in renderers:
+        for x in bodies:
+            cfg = CFG(x)
+            E = ExprBuilder(cfg, fold_named=True)
+            for blk in x.calls():
+                t = blk.term
+                if t.callee.path not in ('std::ops::Fn::call', 'std::ops::FnMut::call_mut', 'std::ops::FnOnce::call_once') or t.callee.resolved != r.path:
+                    continue
+                n_calls += 1
+                V7.sites += 1
+                tup = E.operand(t.args[1]) if len(t.args) > 1 else None
+                idx = tup[2][0] if isinstance(tup, tuple) and tup[0] == 'agg' and tup[2] else None
+                why = None
+                # wrapper closure |(idx, t)| render(idx, t): idx is the first component of the wrapper's tuple parameter, and the
+                # wrapper is mapped over an enumeration of self.transfers
+                if x.kind == 'closure' and x.arg_count == 2 and x.arg_types()[1].startswith('(usize, &') and isinstance(idx, tuple) and idx[0] == 'place' and idx[1:] == (x.name_of(2) or 'arg2', '.0'):
+                    uses = []
+                    pc = CFG(b)
+                    pE = ExprBuilder(pc, fold_named=True)
+                    for pb in b.calls():
+                        if any(re.match(r'(&mut |&)?\{closure@', a.ty or '') and comparators.closure_path_of(F, b, a) is not None and comparators.closure_path_of(F, b, a).path == x.path for a in pb.term.args):
+                            uses.append(pb)
+                    if uses and all(pb.term.callee.path.endswith('Iterator::map') and isinstance(pE.operand(pb.term.args[0]), tuple) and
+                                    pE.operand(pb.term.args[0])[0] == 'call' and pE.operand(pb.term.args[0])[1].endswith('Iterator::enumerate') and
+                                    over_transfers(pE.operand(pb.term.args[0])[2][0]) for pb in uses):
+                        why = 'wrapper mapped over enumerate() of self.transfers (%d use(s))' % len(uses)
+                elif isinstance(idx, tuple) and idx[0] == 'proj' and isinstance(idx[1], tuple) and idx[1][0] == 'call' and idx[1][1].endswith('Iterator::next') and tuple(idx[2:]) == ('@Some', '.0', '.0'):
+                    it = idx[1][2][0]
+                    while isinstance(it, tuple) and (it[0] == 'ref' or (it[0] == 'proj' and len(it) == 2) or (it[0] == 'call' and it[1].endswith('IntoIterator::into_iter'))):
+                        it = it[1] if it[0] != 'call' else it[2][0]
+                    if isinstance(it, tuple) and it[0] == 'call' and it[1].endswith('Iterator::enumerate') and over_transfers(it[2][0]):
+                        why = 'loop over enumerate() of self.transfers'
+                if why:
+                    V7.ok(sample={'renderer_called_at': x.loc(t.sp), 'index_is': why})
+                else:
+                    V7.violation(('index-space', x.closure_of or x.path, 'renderer-index'), 'the tree item renderer is called at %s with index %s, which is not the position of the transfer in self.transfers: '
+                                 'the announced cmdCtx.save.idx denotes another transfer in the save table' % (x.loc(t.sp), show(idx)[:70] if idx is not None else '?'), where=x.loc(t.sp))
+    V7.floor('calls of the tree item renderer', n_calls, 1)
